@@ -195,6 +195,172 @@ Proof.
     destruct Hkv as [<-|[]]. apply not_member_of_plain. exact DOC_KEY_NoDot.
 Qed.
 
+(* ---------- the same under a weaker hypothesis: names may be bound again, as long as the name of a
+   CLASS is not bound again afterwards (a redefined function, or a function later replaced by a class, is fine:
+   both analyses report the last definition under the key's first position) ---------- *)
+
+Fixpoint tbinds (n : snode) : list (bool * str) :=
+  match n with
+  | SNode k name hidden doc children =>
+      let tb_all := (fix go (l : list snode) : list (bool * str) :=
+                       match l with [] => [] | x :: r => tbinds x ++ go r end) children in
+      match k with
+      | NK_Func => if hidden then [] else [(false, name)]
+      | NK_Class => [(true, name)]
+      | NK_IfMain | NK_Other => tb_all
+      end
+  end.
+Definition go_tbinds := fix go (l : list snode) : list (bool * str) := match l with [] => [] | x :: r => tbinds x ++ go r end.
+
+Lemma binds_tbinds : forall n, binds n = map snd (tbinds n).
+Proof.
+  fix IH 1. intros [k name hidden doc children].
+  assert (L : go_binds children = map snd (go_tbinds children)).
+  { induction children as [|x r IHl]; [reflexivity|]. cbn [go_binds go_tbinds]. fold go_binds. fold go_tbinds.
+    rewrite map_app, <- IHl, <- IH. reflexivity. }
+  destruct k; cbn [binds tbinds]; try (destruct hidden; reflexivity); try reflexivity; exact L.
+Qed.
+
+Lemma go_binds_tbinds l : go_binds l = map snd (go_tbinds l).
+Proof.
+  induction l as [|x r IHl]; [reflexivity|]. cbn [go_binds go_tbinds]. fold go_binds. fold go_tbinds.
+  rewrite map_app, <- IHl, <- binds_tbinds. reflexivity.
+Qed.
+
+(* once a class is bound under a name, that name is not bound again *)
+Fixpoint NoClassRebind (l : list (bool * str)) : Prop :=
+  match l with
+  | [] => True
+  | (c, nm) :: r => (c = true -> ~ In nm (map snd r)) /\ NoClassRebind r
+  end.
+
+Lemma NoClassRebind_app a b : NoClassRebind (a ++ b) ->
+  NoClassRebind a /\ NoClassRebind b /\ (forall nm, In (true, nm) a -> ~ In nm (map snd b)).
+Proof.
+  induction a as [|[c nm] a IH]; simpl; intros H.
+  - split; [exact I|]. split; [exact H | intros nm []].
+  - destruct H as [H1 H2]. destruct (IH H2) as (A & B & C). split.
+    + split; [|exact A]. intros Hc X. apply (H1 Hc). rewrite map_app. apply in_or_app. left. exact X.
+    + split; [exact B|]. intros nm' [E|Hin].
+      * inversion E; subst. intros X. apply (H1 eq_refl). rewrite map_app. apply in_or_app. right. exact X.
+      * apply C. exact Hin.
+Qed.
+
+Lemma NoDup_NoClassRebind l : NoDup (map snd l) -> NoClassRebind l.
+Proof.
+  induction l as [|[c nm] l IH]; simpl; intros H; [exact I|]. inversion H; subst.
+  split; [intros _; assumption | apply IH; assumption].
+Qed.
+
+(* names bound in a tree whose definitions carry dot-free names are dot-free *)
+Lemma binds_NoDot : forall n, BoundNoDot n -> forall nm, In nm (binds n) -> NoDot nm.
+Proof.
+  fix IHy 1. intros [k name hidden doc ch] HBy nm H.
+  destruct k; simpl in *.
+  - destruct hidden; [contradiction|]. destruct H as [<-|[]]. exact HBy.
+  - destruct H as [<-|[]]. exact HBy.
+  - revert HBy H. induction ch as [|z zs IHz]; simpl; [contradiction|]. intros [HBz HBzs] H.
+    apply in_app_or in H. destruct H as [H|H]; [apply (IHy z HBz nm H) | apply IHz; assumption].
+  - revert HBy H. induction ch as [|z zs IHz]; simpl; [contradiction|]. intros [HBz HBzs] H.
+    apply in_app_or in H. destruct H as [H|H]; [apply (IHy z HBz nm H) | apply IHz; assumption].
+Qed.
+
+Lemma go_binds_NoDot r : (fix go (l : list snode) : Prop := match l with [] => True | x :: r => BoundNoDot x /\ go r end) r ->
+  forall nm, In nm (go_binds r) -> NoDot nm.
+Proof.
+  induction r as [|y r IHr]; simpl; [contradiction|]. intros [HBy HBr] nm H.
+  apply in_app_or in H. destruct H as [H|H]; [exact (binds_NoDot y HBy nm H) | apply IHr; assumption].
+Qed.
+
+Lemma dyn_eq_visit_rebind : forall n acc,
+  BoundNoDot n -> NoClassRebind (tbinds n) -> (forall nm, In nm (binds n) -> Clean nm acc) ->
+  dyn None n acc = visit None n acc /\
+  (forall nm', NoDot nm' -> ~ In (true, nm') (tbinds n) -> Clean nm' acc -> Clean nm' (visit None n acc)).
+Proof.
+  fix IH 1. intros [k name hidden doc children] acc HB ND HC.
+  assert (L : forall a, (fix go (l : list snode) : Prop := match l with [] => True | x :: r => BoundNoDot x /\ go r end) children ->
+              NoClassRebind (go_tbinds children) -> (forall nm, In nm (go_binds children) -> Clean nm a) ->
+              dyn_list None children a = visit_list None children a /\
+              (forall nm', NoDot nm' -> ~ In (true, nm') (go_tbinds children) -> Clean nm' a -> Clean nm' (visit_list None children a))).
+  { clear HB ND HC. induction children as [|x r IHl]; intros a HBl NDl HCl; [split; [reflexivity | intros nm' _ _ H; exact H]|].
+    destruct HBl as [HBx HBr]. cbn [go_tbinds] in NDl. fold go_tbinds in NDl. cbn [go_binds] in HCl. fold go_binds in HCl.
+    destruct (NoClassRebind_app _ _ NDl) as (NDx & NDr & Dis).
+    destruct (IH x a HBx NDx (fun nm H => HCl nm (in_or_app _ _ _ (or_introl H)))) as [E P].
+    assert (HCr : forall nm, In nm (go_binds r) -> Clean nm (visit None x a)).
+    { intros nm Hr. apply P.
+      - exact (go_binds_NoDot r HBr nm Hr).
+      - intros X. apply (Dis nm X). rewrite <- go_binds_tbinds. exact Hr.
+      - apply HCl. apply in_or_app. right. exact Hr. }
+    destruct (IHl (visit None x a) HBr NDr HCr) as [E2 P2].
+    simpl. rewrite E. split; [exact E2|].
+    intros nm' Hd Hn Hc. apply P2; [exact Hd | intro X; apply Hn; cbn [go_tbinds]; apply in_or_app; right; exact X |].
+    apply P; [exact Hd | intro X; apply Hn; cbn [go_tbinds]; apply in_or_app; left; exact X | exact Hc]. }
+  destruct k.
+  - (* function *)
+    simpl in HB, ND, HC. simpl. destruct hidden.
+    + split; [reflexivity | intros nm' _ _ H; exact H].
+    + unfold dyn_bind. rewrite drop_clean by (apply HC; left; reflexivity). split; [reflexivity|].
+      intros nm' Hd Hn Hc kv Hkv. destruct (od_set_in _ _ _ _ Hkv) as [X|X]; [rewrite X; apply not_member_of_plain; exact HB | apply Hc; exact X].
+  - (* class *)
+    simpl in HB, ND, HC. rewrite visit_unfold. cbn [dyn].
+    change ((fix go (l : list snode) (a : calldefs) : calldefs := match l with [] => a | x :: r => go r (dyn (Some name) x a) end) children)
+      with (fun a => (fix go (l : list snode) (a : calldefs) : calldefs := match l with [] => a | x :: r => go r (dyn (Some name) x a) end) children a).
+    assert (G : forall a, (fix go (l : list snode) (a : calldefs) : calldefs := match l with [] => a | x :: r => go r (dyn (Some name) x a) end) children a
+                          = dyn_list (Some name) children a).
+    { clear. induction children as [|x r IHl]; intros a; simpl; [reflexivity | apply IHl]. }
+    cbv beta. rewrite G, dyn_list_in_class. unfold dyn_bind. rewrite drop_clean by (apply HC; left; reflexivity).
+    split; [reflexivity|].
+    intros nm' Hd Hn Hc kv Hkv. destruct (visit_list_class_keys _ _ _ _ Hkv) as [X|[m X]].
+    + destruct (od_set_in _ _ _ _ X) as [Y|Y]; [rewrite Y; apply not_member_of_plain; exact HB | apply Hc; exact Y].
+    + rewrite X. unfold member_of. destruct (starts_with (nm' ++ [DOT]) (name ++ [DOT] ++ m)) eqn:E; [|reflexivity].
+      exfalso. apply Hn. left. f_equal. symmetry. apply (prefix_dot_eq nm' name m Hd HB E).
+  - rewrite visit_unfold. cbn [dyn]. cbn [BoundNoDot binds tbinds] in HB, ND, HC. fold go_binds in HC. fold go_tbinds in ND.
+    assert (G : forall a, (fix go (l : list snode) (a : calldefs) : calldefs := match l with [] => a | x :: r => go r (dyn None x a) end) children a
+                          = dyn_list None children a).
+    { clear. induction children as [|x r IHl]; intros a; simpl; [reflexivity | apply IHl]. }
+    rewrite G. cbn [tbinds]. fold go_tbinds. apply L; assumption.
+  - rewrite visit_unfold. cbn [dyn]. cbn [BoundNoDot binds tbinds] in HB, ND, HC. fold go_binds in HC. fold go_tbinds in ND.
+    assert (G : forall a, (fix go (l : list snode) (a : calldefs) : calldefs := match l with [] => a | x :: r => go r (dyn None x a) end) children a
+                          = dyn_list None children a).
+    { clear. induction children as [|x r IHl]; intros a; simpl; [reflexivity | apply IHl]. }
+    rewrite G. cbn [tbinds]. fold go_tbinds. apply L; assumption.
+Qed.
+
+Definition tbinds_list (body : list snode) : list (bool * str) := go_tbinds body.
+
+Lemma tbinds_other name hidden doc children : tbinds (SNode NK_Other name hidden doc children) = tbinds_list children.
+Proof. reflexivity. Qed.
+
+(* static = dynamic whenever no class name is bound again (functions may be redefined, in any branch) *)
+Theorem static_dynamic_agree_rebind moddoc body :
+  BoundNoDotList body -> NoClassRebind (tbinds_list body) ->
+  dyn_module moddoc body = visit_module moddoc body.
+Proof.
+  intros HB ND. unfold dyn_module, visit_module.
+  set (acc0 := match moddoc with Some d => [(DOC_KEY, Some d)] | None => [] end).
+  pose proof (dyn_eq_visit_rebind (SNode NK_Other [] false None body) acc0) as H.
+  rewrite dyn_other_unfold, visit_unfold in H. apply H.
+  - apply BoundNoDot_other. exact HB.
+  - rewrite tbinds_other. exact ND.
+  - intros nm _ kv Hkv. unfold acc0 in Hkv. destruct moddoc; [|contradiction].
+    destruct Hkv as [<-|[]]. apply not_member_of_plain. exact DOC_KEY_NoDot.
+Qed.
+
+(* a function defined twice and a function later replaced by a class satisfy the hypothesis *)
+Example redefinition_allowed :
+  let F := [102%N] in let G := [103%N] in
+  let body := [SNode NK_Func F false (Some 1%nat) []; SNode NK_Func G false None [];
+               SNode NK_Other [] false None [SNode NK_Func F false (Some 2%nat) []];
+               SNode NK_Class G false (Some 3%nat) [SNode NK_Func F false (Some 4%nat) []]] in
+  NoClassRebind (tbinds_list body) /\ ~ NoDup (binds_list body) /\
+  visit_module None body = [(F, Some 2%nat); (G, Some 3%nat); (G ++ [DOT] ++ F, Some 4%nat)].
+Proof.
+  cbv zeta. split; [|split].
+  - vm_compute. repeat split; try (intros Hc; discriminate Hc). intros _ [].
+  - vm_compute. intros H. inversion H as [|? ? Hn _]; subst. apply Hn. right. left. reflexivity.
+  - vm_compute. reflexivity.
+Qed.
+
 (* without that hypothesis the two differ: a class bound twice keeps the members of the first
    definition in the static collection only *)
 Example rebinding_differs :
